@@ -105,7 +105,8 @@ func runC10(c *fw.Case) (o fw.Outcome) {
 	if c.Thorough() {
 		steps = 700
 	}
-	o.Tag(fmt.Sprintf("NIA%d/NEA%d", iAlg, cAlg))
+	profile := (c.Idx / 6) % 3
+	o.Tag(fmt.Sprintf("NIA%d/NEA%d", iAlg, cAlg), fmt.Sprintf("reset-profile=%d", profile))
 	hist := fw.Hash(ue.KnasEnc[:], ue.KnasInt[:], []byte{cAlg, iAlg})
 	var trace []string
 	protected := 0
@@ -126,7 +127,23 @@ func runC10(c *fw.Case) (o fw.Outcome) {
 	}()
 	for s := 0; s < steps; s++ {
 		plain, kind := plainDownlink(r)
-		sht := uint8(pick(r, 0, 1, 2, 2, 2, 2, 3, 4))
+		// history profile (by case index): how often the AMF takes a new context into use. Rare resets let the SQN wrap
+		// (overflow > 0) before the next Security Mode Command arrives.
+		sht := uint8(pick(r, 0, 1, 2, 2, 2, 2, 2, 2))
+		switch profile {
+		case 0:
+			if r.Intn(4) == 0 {
+				sht = uint8(3 + r.Intn(2))
+			}
+		case 1:
+			if r.Intn(60) == 0 {
+				sht = uint8(3 + r.Intn(2))
+			}
+		default: // a new context exactly when the old one has wrapped at least once (and rarely otherwise)
+			if (amfCount > 0x100 && r.Intn(20) == 0) || r.Intn(400) == 0 {
+				sht = uint8(3 + r.Intn(2))
+			}
+		}
 		if s == 0 {
 			sht = 3 // the context is taken into use by a Security Mode Command-like message
 		}
@@ -142,6 +159,9 @@ func runC10(c *fw.Case) (o fw.Outcome) {
 			wire = plain
 		} else {
 			if sht >= 3 {
+				if amfCount > 0xff {
+					o.Count("context_resets_after_sqn_wrap", 1)
+				}
 				amfCount = 0
 				o.Count("context_resets", 1)
 			}
@@ -207,7 +227,7 @@ func runC10(c *fw.Case) (o fw.Outcome) {
 			o.Count("protected_messages_verified", 1)
 			o.Max("highest_count_seen", int64(amfCount))
 			skip := uint32(1)
-			if r.Intn(5) == 0 {
+			if r.Intn(5) == 0 || (profile == 2 && r.Intn(2) == 0) {
 				skip = 1 + uint32(r.Intn(40))
 				o.Count("sqn_skips", 1)
 			}
